@@ -42,6 +42,7 @@ contract Everything {
         return uint256(h);
     }
     function kill() external { selfdestruct(payable(msg.sender)); }
+    function peek(uint256[] memory xs) public returns (uint256) { return xs.length; }
     function _pub() public {}
     function priv() private {}
     constructor(uint256 l) { limit = l; }
@@ -94,3 +95,104 @@ def run_solstat(binary, cwd, args, timeout=120):
 
 def scratch_root():
     return tempfile.mkdtemp(prefix="solstat-verif-proc-")
+
+
+def hexs(s):
+    return s.encode("utf-8").hex() if s is not None else "-"
+
+
+def doc_names(repo):
+    """documented names per category: docs tables and Solstat.toml"""
+    import re
+    out = {"opt": set(), "vuln": set(), "qa": set()}
+    for cat, f in (("opt", "docs/identified-optimizations.md"), ("vuln", "docs/identified-vulnerabilities.md"), ("qa", "docs/identified-quality-assurance.md")):
+        for l in open(os.path.join(repo, f), encoding="utf-8"):
+            m = re.match(r"\|\s*([a-z0-9_]+)\s*\|", l)
+            if m:
+                out[cat].add(m.group(1))
+    toml = open(os.path.join(repo, "Solstat.toml"), encoding="utf-8").read()
+    for cat, key in (("opt", "optimizations"), ("vuln", "vulnerabilities"), ("qa", "qa")):
+        m = re.search(key + r"\s*=\s*\[(.*?)\]", toml, re.S)
+        if m:
+            out[cat] |= set(re.findall(r'"([^"]+)"', m.group(1)))
+    return out
+
+
+def variant_of(name):
+    """documented snake_case name -> enum variant name as the section signatures use it"""
+    special = {"immutable_variables": "ImmutableVarialbes", "unsafe_erc20_operation": "UnsafeERC20Operation",
+               "safe_math_pre_080": "SafeMathPre080", "safe_math_post_080": "SafeMathPost080", "solidity_keccak256": "SolidityKeccak256"}
+    if name in special:
+        return special[name]
+    return "".join(p.capitalize() for p in name.split("_"))
+
+
+def c14_cases(ctx, binary, root, rnd, n):
+    """returns list of dict(case description, request line, oracle verdict)"""
+    docs = doc_names(ctx["repo"])
+    allnames = {c: sorted(v) for c, v in docs.items()}
+    cases = []
+    for k in range(n):
+        d = os.path.join(root, f"c{k}")
+        os.makedirs(d)
+        dirs = {"contracts": rnd.random() < 0.8, "alt": True, "cli": True}
+        for name, present in dirs.items():
+            if present:
+                sub = os.path.join(d, name)
+                os.makedirs(sub)
+                open(os.path.join(sub, f"{name}_A.sol"), "w").write(CONTRACT_ALL)
+                open(os.path.join(sub, f"{name}_Old.sol"), "w").write(CONTRACT_PRE)
+        use_cli = rnd.random() < 0.4
+        use_toml = rnd.random() < 0.75
+        toml_path_key = rnd.random() < 0.6
+        unknown = use_toml and rnd.random() < 0.25
+        sel = {}
+        args = []
+        toml_enc = "-"
+        if use_toml:
+            for cat in ("opt", "vuln", "qa"):
+                names = [x for x in allnames[cat] if rnd.random() < 0.5]
+                rnd.shuffle(names)
+                # random letter case of every name
+                cased = ["".join(ch.upper() if rnd.random() < 0.3 else ch for ch in x) for x in names]
+                sel[cat] = cased
+            if unknown:
+                cat = rnd.choice(["opt", "vuln", "qa"])
+                sel[cat].insert(rnd.randrange(len(sel[cat]) + 1), rnd.choice(["no_such_pattern", "address_balances", "sstore2", "", "constructor order"]))
+            tp = os.path.join(d, "alt") if toml_path_key else None
+            lines = []
+            if tp is not None:
+                lines.append(f"path = '{tp}'")
+            lines.append("optimizations = [" + ", ".join('"%s"' % x for x in sel["opt"]) + "]")
+            lines.append("vulnerabilities = [" + ", ".join('"%s"' % x for x in sel["vuln"]) + "]")
+            lines.append("qa = [" + ", ".join('"%s"' % x for x in sel["qa"]) + "]")
+            cfg = os.path.join(d, "cfg.toml")
+            open(cfg, "w").write("\n".join(lines) + "\n")
+            args += ["--toml", cfg]
+            toml_enc = ";".join(["path=" + hexs(tp)] + [f"{c}=" + ",".join(hexs(x) for x in sel[c]) for c in ("opt", "vuln", "qa")])
+        cli_path = os.path.join(d, "cli") if use_cli else None
+        if use_cli:
+            args += ["--path", cli_path]
+        code, rep, err = run_solstat(binary, d, args)
+        req = "\t".join(["RESOLVE", hexs(cli_path), toml_enc, "1" if dirs["contracts"] else "0", str(code), rep.hex() if rep is not None else "-"])
+        # oracle, in the property's words (independent of the Lean model)
+        bad_name = use_toml and any(x.lower() not in docs[c] for c in ("opt", "vuln", "qa") for x in sel[c])
+        expect_fail = bad_name or (not use_cli and not (use_toml and toml_path_key) and not dirs["contracts"])
+        verdict = "ok"
+        why = ""
+        if bad_name and not (code != 0 and rep is None):
+            verdict, why = "VIOL", "unknown pattern name but exit status %d / report %s" % (code, "written" if rep is not None else "absent")
+        elif not expect_fail:
+            if code != 0 or rep is None:
+                verdict, why = "VIOL", f"valid configuration but exit status {code}: {err[-200:]}"
+            else:
+                text = rep.decode("utf-8", "replace")
+                want_dir = "cli" if use_cli else ("alt" if use_toml and toml_path_key else "contracts")
+                import re as _re
+                files = set(_re.findall(r"^- ([A-Za-z_]+)_(?:A|Old)\.sol:\d+$", text, _re.M))
+                if files and files != {want_dir}:
+                    verdict, why = "VIOL", f"analysed directory {sorted(files)} but the configuration names {want_dir}"
+        cases.append({"args": [a.replace(d, "<case>") for a in args], "toml": sel if use_toml else None, "contracts_dir": dirs["contracts"],
+                      "exit": code, "report_written": rep is not None, "request": req, "oracle": verdict, "why": why})
+        shutil.rmtree(d, ignore_errors=True)
+    return cases
